@@ -365,3 +365,27 @@ ADDED14 = {
 for _pid, _extra in ADDED14.items():
     t, text, note, ref = CLAIMED[_pid]
     CLAIMED[_pid] = (t, text + _extra, note, ref)
+
+ADDED15 = {
+ "C01": " Round 15: an error bound to a variable that is assigned again before anybody reads it is a dropped error (C01.errors-surface); the value operand of def may be evaluated in a function of the evaluator that holds the whole arm.",
+ "C02": " Round 15: a buffer that is grown and re-sliced in a loop is judged by where the family of its views comes from.",
+ "C04": " Round 15: a method called on the only result of a function of the module that can hand back the nil interface (a lookup that answers nil for 'none') is audited like a parameter that may be nil.",
+ "C05": " Round 15: a function of the read-string builtin that calls itself with a text that still contains all of the text it was given is flagged (C05.single-text).",
+ "C06": " Round 15: no printed text is used as a format in package printer (C06.text-not-format); the keyword branch of the printer may ask a predicate of the module that is the prefix test; brackets written into a strings.Builder are read from its first and last write.",
+ "C07": " Round 15: no function of lib/concurrent acquires a mutex it holds, directly or through a callee (C09.no-reentry as C07.no-reentry).",
+ "C08": " Round 15: a form handed to a function value of the evaluator's own type (the evaluator a closure carries) and its value returned is a nested evaluation in a tail position (C08.tail).",
+ "C09": " Round 15: the error of an update function reaches swap! through the builtins the update is composed of: no error bound and never read (C09.update-error).",
+ "C10": " Round 15: lib/concurrent keeps no package-level channel, counter or container the futures share (C10.no-shared-queue); the address of a guarded flag handed to a method of the same object is an access where that method dereferences it.",
+ "C11": " Round 15: sync/atomic functions applied to a package-level variable are writes of shared state, race-free or not (C11.package-state).",
+ "C12": " Round 15: a hash-map or symbol template with a case of its own is returned literally or quoted like the shared case (C12.qq-dispatch).",
+ "C13": " Round 15: the accessor's error may be dropped on the shared arm of a type switch that admits only lists and vectors.",
+ "C15": " Round 15: from the branch taken for an empty line no path leads round the preamble loop again (C15.stop).",
+ "C16": " Round 15: a line scanner in the slurp builtin is asked for its Err (C16.whole-file); the EOF template may be handed to a function of the package that makes the error.",
+ "C17": " Round 15: C15.stop adopted (C17.preamble-stop): the blank lines a program begins with are not swallowed with the separator; positions built through a constructor of package types that only stores its parameters are followed into its call sites.",
+ "C18": " Round 15: every undo function the debugger obtains from the module is deferred or called on every way out of the step (C18.undo).",
+ "C19": " Round 15: the interactive REPL joins accumulated lines with a line break (C19.repl-lines); the printer's form of a keyword and the one marker constant adopted from C06 (C19.reprint-*).",
+ "C20": " Round 15: every return of the evaluator that hands on the error of a call through types.Func.Fn hands it on wrapped by NewLispError (C20.mapped).",
+}
+for _pid, _extra in ADDED15.items():
+    t, text, note, ref = CLAIMED[_pid]
+    CLAIMED[_pid] = (t, text + _extra, note, ref)
